@@ -817,7 +817,14 @@ impl<'a> ParserState<'a> {
                                 // found a tag belonging to a different TaggedItem of the parent struct. Put the token back and let the parent handle it
                                 self.token_cursor.back();
                                 if balance == 1 {
+                                    // also put back the /begin token. There may be comments between /begin and the tag
                                     self.token_cursor.back();
+                                    while self.token_cursor.pos > 0
+                                        && self.token_cursor.tokens[self.token_cursor.pos].ttype
+                                            == A2lTokenType::Comment
+                                    {
+                                        self.token_cursor.back();
+                                    }
                                 }
                                 break;
                             }
